@@ -81,6 +81,11 @@ var c15Preds = []func() jast.Node{
 	func() jast.Node { return v("boolean") },
 	func() jast.Node { return lam([]string{"v"}, v("v")) },
 	func() jast.Node { return &jast.Lambda{Params: nil, Sig: ":b", Body: &jast.Bool{V: true}} },
+	// truthiness of results that the library hands over as Go integers
+	func() jast.Node { return lam([]string{"v", "i"}, v("i")) },
+	func() jast.Node { return v("count") },
+	func() jast.Node { return lam([]string{"v"}, call("length", call("string", v("v")))) },
+	func() jast.Node { return lam([]string{"v", "i", "a"}, &jast.Bin{Op: "-", L: call("count", v("a")), R: &jast.Num{V: 2}}) },
 }
 
 var c15Folds = []func() jast.Node{
